@@ -45,6 +45,8 @@ def admin_then_write(ops):
 # id reservation of the batch path (reachable with efConstruction = 2 in harness variant 1)
 SEEDED_IDS3 = dict(SEEDED_BASE, **{"Ids": "<- c_Ids3", "MaxCtr": 6, "MaxFile": 8, "Cfgs": "<- c_CfgsB", "Maints": "<- c_Empty",
                                    "ALs": "<- c_Empty", "Targets": "<- c_Empty", "MVals": "<- c_MVals1"})
+# five ids: with M = 2 (harness variant 1) the index is beyond the exact regime (2*M nodes), where AddBatch takes its block path
+SEEDED_IDS5 = dict(SEEDED_IDS3, **{"Ids": "<- c_Ids5", "MaxCtr": 8, "MaxFile": 10, "AccSeeds": "<- c_Empty", "MaxAcc": 1, "Vecs": "<- c_Vecs2"})
 
 
 # C12: behaviours start from an index holding vectors a and b, so deletes are reachable within short histories
@@ -74,7 +76,7 @@ def profile_for(consts, variant=0, dim=3):
     """Harness-side universe matching the constant sets of the model profile."""
     sets = {
         "c_Empty": [], "c_Keys1": ["k1"], "c_Names1": ["ix"], "c_Names2": ["ix", "iy"], "c_Ids2": ["a", "b"],
-        "c_Ids3": ["a", "b", "c"], "c_Ids3g": ["a", "b", "g"], "c_Ids1": ["a"], "c_MKeys1": ["k"], "c_GNodes3": ["a", "b", "g"], "c_GNodes2": ["a", "g"], "c_Rels1": ["r"], "c_Rels2": ["r", "q"],
+        "c_Ids3": ["a", "b", "c"], "c_Ids3g": ["a", "b", "g"], "c_Ids5": ["a", "b", "c", "d", "e"], "c_Ids1": ["a"], "c_MKeys1": ["k"], "c_GNodes3": ["a", "b", "g"], "c_GNodes2": ["a", "g"], "c_Rels1": ["r"], "c_Rels2": ["r", "q"],
     }
     g = lambda k: sets[consts[k].replace("<- ", "")]
     return {"keys": g("Keys"), "names": g("Names"), "ids": g("Ids"), "mkeys": g("MKeys"), "gnodes": g("GNodes"),
@@ -247,10 +249,10 @@ def run(prop, tier):
             b["id"] = "sb%d" % i
         plans.append((sb, b3))
     if prop == "C04":
-        s3 = dict(SEEDED_IDS3, MaxOps=3 if quick else 4)
-        c3 = corpus(chk, "MC_Kektor_seeded_ids3_corpus", s3, workers=8, timeout=3000)
+        s3 = dict(SEEDED_IDS5, MaxOps=3 if quick else 4)
+        c3 = corpus(chk, "MC_Kektor_seeded_ids5_corpus", s3, workers=8, timeout=3000)
         b4, _ = vlib.behaviours_from_corpus(c3, max_behaviours=300 if quick else 20000, rng=rng,
-                                            need=lambda ops: any(o.get("op") == "VAddBatch" and o.get("res") == "ok" for o in ops[4:]))
+                                            need=lambda ops: any(o.get("op") == "VAddBatch" and o.get("res") == "ok" for o in ops[6:]))
         for i, b in enumerate(b4):
             b["id"] = "s3_%d" % i
         plans.append((s3, b4))
